@@ -154,26 +154,40 @@ namespace c15
         }
     };
 
+    // how the dispatcher is obtained: with an explicit list, or (D) through the default template argument of xsimd::dispatch
+    template <class L, bool D>
+    struct disp
+    {
+        template <class F>
+        static auto make(F&& f) -> decltype(xsimd::dispatch<L>(std::forward<F>(f))) { return xsimd::dispatch<L>(std::forward<F>(f)); }
+    };
     template <class L>
+    struct disp<L, true>
+    {
+        template <class F>
+        static auto make(F&& f) -> decltype(xsimd::dispatch(std::forward<F>(f))) { return xsimd::dispatch(std::forward<F>(f)); }
+    };
+
+    template <class L, bool D = false>
     void run_val(DispIO& io)
     {
         int lv = io.lv_in;
         const int cv = io.cv_in;
         Token tok(io.tok_in, &io.copies, &io.moves);
         ProbeVal f { &io };
-        auto d = xsimd::dispatch<L>(f);
+        auto d = disp<L, D>::make(f);
         io.ret_got = d(lv, cv, std::move(tok));
         io.lv_after = lv;
     }
 
-    template <class L>
+    template <class L, bool D = false>
     void run_ref(DispIO& io)
     {
         int lv = io.lv_in;
         const int cv = io.cv_in;
         Token tok(io.tok_in, &io.copies, &io.moves);
         ProbeRef f { &io };
-        auto d = xsimd::dispatch<L>(f);
+        auto d = disp<L, D>::make(f);
         auto&& r = d(lv, cv, std::move(tok));
         io.ret_got = r;
         io.ret_is_slot = (&r == &io.ret_slot);
@@ -203,11 +217,11 @@ namespace c15
         }
     };
 
-    template <class L>
+    template <class L, bool D = false>
     void run_twice(DispIO& io, DispIO& io2)
     {
         DispIO* cur = &io;
-        auto d = xsimd::dispatch<L>(ProbeStateful { &cur });
+        auto d = disp<L, D>::make(ProbeStateful { &cur });
         {
             int lv = io.lv_in;
             const int cv = io.cv_in;
@@ -251,7 +265,7 @@ namespace c15
         }
     };
     // returns the number of payload elements the caller's functor still holds after the two dispatches (3 if it was left alone)
-    template <class L>
+    template <class L, bool D = false>
     int run_owning(DispIO& io, DispIO& io2, long* payload_sum_expected)
     {
         DispIO* cur = &io;
@@ -261,7 +275,7 @@ namespace c15
             int lv = io.lv_in;
             const int cv = io.cv_in;
             Token tok(io.tok_in, &io.copies, &io.moves);
-            io.ret_got = xsimd::dispatch<L>(f)(lv, cv, std::move(tok));
+            io.ret_got = disp<L, D>::make(f)(lv, cv, std::move(tok));
             io.lv_after = lv;
         }
         cur = &io2;
@@ -269,7 +283,7 @@ namespace c15
             int lv = io2.lv_in;
             const int cv = io2.cv_in;
             Token tok(io2.tok_in, &io2.copies, &io2.moves);
-            io2.ret_got = xsimd::dispatch<L>(f)(lv, cv, std::move(tok));
+            io2.ret_got = disp<L, D>::make(f)(lv, cv, std::move(tok));
             io2.lv_after = lv;
         }
         return (int)f.payload.size();
@@ -303,6 +317,13 @@ namespace c15
     ListEntry make_entry(const char* kind)
     {
         return ListEntry { kind, list_ids<L>::n, list_ids<L>::get(), &run_val<L>, &run_ref<L>, &run_twice<L>, &run_owning<L> };
+    }
+
+    // the default list: xsimd::dispatch(f) without a template argument must walk supported_architectures
+    inline ListEntry make_default_entry(const char* kind)
+    {
+        using L = xsimd::supported_architectures;
+        return ListEntry { kind, list_ids<L>::n, list_ids<L>::get(), &run_val<L, true>, &run_ref<L, true>, &run_twice<L, true>, &run_owning<L, true> };
     }
 
     template <class C, class P>
